@@ -25,13 +25,53 @@
     tensor: `network_norm_mixed_seq_any_mode_oneKet`); `tw_cross_any_mode` is the generic step
     `(Xm·q)·p` (half first against its SECOND factor) in any modes from the blockwise route.
 
-  (1) THREE-TENSOR CHAINS `a – b – c`: see the second half of this file.
+  (1) THREE-TENSOR CHAINS `a – b – c` (bond 1: legs `xa` of `a` with `xb1` of `b`; bond 2: legs `xb2` of
+      `b` with `xc` of `c`; every other leg dangling; legs of ANY direction; blockwise mode).
+  The bra network is built TENSOR BY TENSOR: `ā = braOf a xa`, `b̄ = braOf b (xb1 ++ xb2)`, `c̄ = braOf c xc`
+  (`braOf t X = t.conj()` followed by `phase_flip` of the legs of `t` outside `X` that are bra-like).
+  Hypotheses are on the INPUT tensors only: valid fermionic, the WEAK contraction guard
+  (`AssocP.tdotAdmissibleCommonB`: matched legs opposite, charge tables agreeing on common charges —
+  implied by `tdotAdmissibleB`) on both bonds, `xb1`, `xb2` disjoint, sorted ket labels (`KetLabels`), all
+  labels of the three tensors distinct.  Scalars: `AddMonoid`, `NetLaws`.
+
+  PROVED
+  * `conj_tensordot_spared` — `conj` of a contraction = contraction of conjugates when FURTHER BOND LEGS `y`
+    of the second tensor are spared by its flip set (weak guard): `braOf a xa · braOf b (xb ++ y)` is
+    observationally (`C09.ObsEq`: symmetry, index tables, charge, labels, stored sectors, every value)
+    `braOf (a·b) y'`, `y' = AssocP.axesAB …` the images of `y` in `a·b`: the bra tensor of the composite
+    in the remaining network.  [`dangOdd_result` replaces `dualOdd_result` in the sign identity
+    `bra_pair_sign` of one aligned sector pair; `y = []`, strong guard: `conj_tensordot` of C10c via
+    `conj_phase_dual_is_braOf`.]
+  * `conj_phase_dual_is_braOf` — `K.conj(phase_dual=True)` is observationally `braOf K x` whenever the
+    legs `x` are ket-like (in particular `x = []`).
+  * `chain_second_guard` — the second call `(a·b)·c` satisfies the weak guard (from `InterW`).
+  * `network_norm_chain3` — the HALVES ROUTE with left-nested halves, both operand orders of the
+    final call: `K2 = a·b`, `K3 = K2·c`, `K̄2 = ā·b̄`, `K̄3 = K̄2·c̄` all succeed;
+    `K̄2 ≈ braOf K2 x2`, `K̄3 ≈ K3.conj(phase_dual=True)` (the inductive use of `conj_tensordot_spared`);
+    `K̄3·K3 = normSq K3 = Σ|K3|²`, `K3·K̄3 = normSq' K3`, rank 0, no labels, no stray sign; the labels of
+    `K3` are a permutation of all labels.
+  * `network_norm_chain3_strong` — the same under `tdotAdmissibleB` on both bonds.
+  * `chain3_needs_sparing` — negative control: flipping ALSO the bra-like bond leg of `b̄` towards `c`
+    (`braOf b xb1` instead of `braOf b (xb1 ++ xb2)`) gives `-106582` instead of `Σ|K3|² = 117734` on a
+    concrete chain.
+
+  NOT COVERED (remaining)
+  * further routes of the three-tensor network: other bracketings of the two halves (`ā·(b̄·c̄)`,
+    `a·(b·c)`: `C04.chain_bracketings_agree` gives `Eqv` halves, then `C04.tdotF_congr_eqv`), the nested
+    routes that absorb the bra tensors one at a time (`c̄·(b̄·(ā·K3))`: needs the triangle S7 of C04 with
+    the frames of NormNet13/18), operand-swapped halves; fused / auto mode for the chain (transfer as in
+    part (3) with `TdotP.Pad`);
+  * (2) bracketings of the two-tensor network that first contract a ket with a bra tensor
+    (`(ā·a)·(b̄·b)`, `((ā·a)·b̄)·b`): not attempted;
+  * the other sequential bracketings with mixed orders in any mode (same argument as `tw_cross_any_mode`
+    with another triangle); `netLabelsB` for more than two labels per tensor.
 -/
-import SymmModel.Proofs.NetNorm3
+import SymmModel.Proofs.NetNorm7
 import SymmModel.Props.C10g
 
 namespace SymmModel.C10
 open SymmModel Lazy Norm NormNet TdotP
+set_option linter.unusedSectionVars false
 
 /-! ## (3) mixed operand orders in any mode -/
 
@@ -231,5 +271,163 @@ def mixedModeVals (a b : Arr Int) (xa xb : List Nat) (m : TdotMode) : List Int :
   | _, _, _, _ => []
 
 example : mixedModeVals gAs C03.gB [2] [0] .fused = [2174, 2174, 2174] := by decide +kernel
+
+/-! ## (1) three-tensor chains -/
+
+section chain
+variable {R : Type} [AddMonoid R] [Mul R] [Neg R] [Conj R] [NetLaws R]
+
+/-- vocabulary: the bra tensor and its flip set; the images of further bond legs in a contraction -/
+theorem braOf_def' (a : Arr R) (X : List Nat) :
+    NormNet.braOf a X = (a.conjF).phaseFlip (NormNet.dangDual a X)
+    ∧ NormNet.dangDual a X
+        = (freeAxes a.ndim X).filter (fun ax => (a.indices.getD ax default).dual) := ⟨rfl, rfl⟩
+
+theorem spared_images_def (nA nB : Nat) (xa xb y : List Nat) :
+    AssocP.axesAB nA nB xa xb y
+      = (RoutesP.positions (freeAxes nB xb) y).map ((freeAxes nA xa).length + ·) := rfl
+
+/-- `K.conj(phase_dual=True)` is the bra tensor `braOf K x` when the legs `x` are ket-like -/
+theorem conj_phase_dual_is_braOf (K : Arr R) (x : List Nat) (hv : K.validB = true)
+    (hf : K.fermi = true) (hx : ∀ ax ∈ x, (K.indices.getD ax default).dual = false) :
+    ObsEq (K.conjF true true) (NormNet.braOf K x) :=
+  NormNet.conjF_obs_braOf K x (SignOk.of_valid hv hf) hx
+
+/-- ket-like bond legs are never flipped -/
+theorem braOf_spare_ket (a : Arr R) (x y : List Nat)
+    (hy : ∀ ax ∈ y, (a.indices.getD ax default).dual = false) :
+    NormNet.braOf a (x ++ y) = NormNet.braOf a x := NormNet.braOf_spare a x y hy
+
+/-- **conj_tensordot_spared.**  `conj` of a contraction = contraction of the conjugates, with further
+    bond legs `y` of `b` spared, under the weak guard. -/
+theorem conj_tensordot_spared (a b : Arr R) (xa xb y : List Nat)
+    (ha : a.validB = true) (hb : b.validB = true) (hfa : a.fermi = true) (hfb : b.fermi = true)
+    (hadm : AssocP.tdotAdmissibleCommonB a b xa xb = true)
+    (hny : (xb ++ y).Nodup) (hy : ∀ i ∈ y, i < b.ndim)
+    (hoA : KetLabels a.oddpos) (hoB : KetLabels b.oddpos)
+    (hd : (a.oddpos ++ b.oddpos).Pairwise (fun x y => x.1 ≠ y.1)) :
+    ∃ K Kb, a.tensordotF b (.pair (xa.map Int.ofNat) (xb.map Int.ofNat)) .blockwise = .ok K
+      ∧ (NormNet.braOf a xa).tensordotF (NormNet.braOf b (xb ++ y))
+          (.pair (xa.map Int.ofNat) (xb.map Int.ofNat)) .blockwise = .ok Kb
+      ∧ ObsEq Kb (NormNet.braOf K (AssocP.axesAB a.ndim b.ndim xa xb y))
+      ∧ K.validB = true ∧ K.fermi = true ∧ Kb.validB = true ∧ Kb.fermi = true
+      ∧ (∀ x ∈ K.oddpos, x.2 = false)
+      ∧ K.oddpos.Pairwise (fun x y => oddLt x y = true)
+      ∧ K.oddpos.Pairwise (fun x y => x.1 ≠ y.1)
+      ∧ K.oddpos.Perm (a.oddpos ++ b.oddpos) := by
+  have W := AssocP.AdmW.of ha hb hfa hfb hadm
+  have hM : AssocP.Mid b.ndim xb y := AssocP.Mid.of hny (by
+    intro i hi
+    rcases List.mem_append.mp hi with h | h
+    · exact W.ltB i h
+    · exact hy i h)
+  obtain ⟨K, Kb, h1, h2, h3, h4, h5, h6, h7, h8, h9, h10, _, h12⟩ :=
+    NormNet.conj_tensordot_spared_w a b xa xb y W hM hoA hoB hd
+  exact ⟨K, Kb, h1, h2, h3, h4, h5, h6, h7, h8, h9, h10, h12⟩
+
+/-- the second call of the chain satisfies the weak guard -/
+theorem chain_second_guard [GradedP.SignRing R] {a b c K2 : Arr R} {xa xb1 xb2 xc : List Nat}
+    (I : InterW a b xa xb1 K2) (W1 : AssocP.AdmW a b xa xb1) (W2 : AssocP.AdmW b c xb2 xc)
+    (hM : AssocP.Mid b.ndim xb1 xb2) :
+    AssocP.AdmW K2 c (AssocP.axesAB a.ndim b.ndim xa xb1 xb2) xc :=
+  NormNet.admW_left_chain_w I W1 W2 hM
+
+/-- **network_norm_chain3.**  The three-tensor chain conjugated tensor by tensor, halves route:
+    all four contractions succeed, the bra half is observationally `conj(phase_dual=True)` of the ket
+    half, and the two full contractions give `Σ|K3|²` — rank 0, no labels, no stray sign. -/
+theorem network_norm_chain3 (a b c : Arr R) (xa xb1 xb2 xc : List Nat)
+    (ha : a.validB = true) (hb : b.validB = true) (hc : c.validB = true)
+    (hfa : a.fermi = true) (hfb : b.fermi = true) (hfc : c.fermi = true)
+    (hadm1 : AssocP.tdotAdmissibleCommonB a b xa xb1 = true)
+    (hadm2 : AssocP.tdotAdmissibleCommonB b c xb2 xc = true)
+    (hnd : (xb1 ++ xb2).Nodup)
+    (hoA : KetLabels a.oddpos) (hoB : KetLabels b.oddpos) (hoC : KetLabels c.oddpos)
+    (hd : ((a.oddpos ++ b.oddpos) ++ c.oddpos).Pairwise (fun x y => x.1 ≠ y.1)) :
+    ∃ K2 Kb2 K3 Kb3,
+      a.tensordotF b (.pair (xa.map Int.ofNat) (xb1.map Int.ofNat)) .blockwise = .ok K2
+      ∧ (NormNet.braOf a xa).tensordotF (NormNet.braOf b (xb1 ++ xb2))
+          (.pair (xa.map Int.ofNat) (xb1.map Int.ofNat)) .blockwise = .ok Kb2
+      ∧ K2.tensordotF c (.pair ((AssocP.axesAB a.ndim b.ndim xa xb1 xb2).map Int.ofNat)
+          (xc.map Int.ofNat)) .blockwise = .ok K3
+      ∧ Kb2.tensordotF (NormNet.braOf c xc)
+          (.pair ((AssocP.axesAB a.ndim b.ndim xa xb1 xb2).map Int.ofNat)
+          (xc.map Int.ofNat)) .blockwise = .ok Kb3
+      ∧ ObsEq Kb2 (NormNet.braOf K2 (AssocP.axesAB a.ndim b.ndim xa xb1 xb2))
+      ∧ ObsEq Kb3 (K3.conjF true true)
+      ∧ Kb3.ndim = K3.ndim
+      ∧ K3.oddpos.Perm ((a.oddpos ++ b.oddpos) ++ c.oddpos)
+      ∧ (∃ r, Kb3.tensordotF K3 (allAxes K3.ndim) .blockwise = .ok r
+          ∧ r.ndim = 0 ∧ r.oddpos = [] ∧ r.elem [] [] = normSq K3)
+      ∧ (∃ r, K3.tensordotF Kb3 (allAxes K3.ndim) .blockwise = .ok r
+          ∧ r.ndim = 0 ∧ r.oddpos = [] ∧ r.elem [] [] = normSq' K3) :=
+  NormNet.network_norm_chain3 a b c xa xb1 xb2 xc ha hb hc hfa hfb hfc hadm1 hadm2 hnd hoA hoB hoC hd
+
+/-- the strong guard implies the weak one -/
+theorem admissible_weak {a b : Arr R} {xa xb : List Nat}
+    (ha : a.validB = true) (hb : b.validB = true) (hfa : a.fermi = true) (hfb : b.fermi = true)
+    (hadm : ValidP.tdotAdmissibleB a b xa xb = true) :
+    AssocP.tdotAdmissibleCommonB a b xa xb = true := by
+  have W := AssocP.AdmW.ofAdm (RoutesP.Adm.of ha hb hfa hfb hadm)
+  unfold AssocP.tdotAdmissibleCommonB
+  simp only [Bool.and_eq_true, decide_eq_true_eq, ValidP.allDistinct_iff, List.all_eq_true]
+  exact ⟨⟨⟨⟨⟨W.sym, W.con⟩, W.nA⟩, W.nB⟩, W.ltA⟩, W.ltB⟩
+
+/-- `network_norm_chain3` under the guard `tdotAdmissibleB` of the implementation on both bonds
+    (`Chain3` abbreviates the conclusion of `network_norm_chain3`) -/
+theorem network_norm_chain3_strong (a b c : Arr R) (xa xb1 xb2 xc : List Nat)
+    (ha : a.validB = true) (hb : b.validB = true) (hc : c.validB = true)
+    (hfa : a.fermi = true) (hfb : b.fermi = true) (hfc : c.fermi = true)
+    (hadm1 : ValidP.tdotAdmissibleB a b xa xb1 = true)
+    (hadm2 : ValidP.tdotAdmissibleB b c xb2 xc = true)
+    (hnd : (xb1 ++ xb2).Nodup)
+    (hoA : KetLabels a.oddpos) (hoB : KetLabels b.oddpos) (hoC : KetLabels c.oddpos)
+    (hd : ((a.oddpos ++ b.oddpos) ++ c.oddpos).Pairwise (fun x y => x.1 ≠ y.1)) :
+    Chain3 a b c xa xb1 xb2 xc :=
+  NormNet.network_norm_chain3 a b c xa xb1 xb2 xc ha hb hc hfa hfb hfc
+    (admissible_weak ha hb hfa hfb hadm1) (admissible_weak hb hc hfb hfc hadm2) hnd hoA hoB hoC hd
+
+end chain
+
+/-! ### non-vacuity of (1) -/
+
+open SymmModel.C03 in
+/-- a third tensor `c[j', m]`: ket `j'`, bra `m`; odd; label 5; pending sign -/
+def gC : Arr Int :=
+  { sym := .Z2, fermi := true, indices := [ixi false, ixk true], charge := (1, 0),
+    blocks := [([(1,0),(0,0)], mkB [1,1] 3), ([(0,0),(1,0)], mkB [2,2] (-2))],
+    phases := [([(0,0),(1,0)], -1)], oddpos := [(5, false)] }
+
+/-- the chain `gA – gB – gC`: bond 1 = `gA`'s ket leg 2 with `gB`'s bra leg 0; bond 2 = `gB`'s BRA leg 2
+    with `gC`'s ket leg 0 (so `b̄`'s flip set really has to spare a bra-like leg) -/
+example : Chain3 C03.gA C03.gB gC [2] [0] [2] [0] :=
+  network_norm_chain3_strong C03.gA C03.gB gC [2] [0] [2] [0] (by decide +kernel) (by decide +kernel)
+    (by decide +kernel) rfl rfl rfl (by decide +kernel) (by decide +kernel) (by decide)
+    (OneKet.ketLabels (Or.inr ⟨1, rfl⟩)) (OneKet.ketLabels (Or.inr ⟨3, rfl⟩))
+    (OneKet.ketLabels (Or.inr ⟨5, rfl⟩)) (by decide)
+
+/-- value of `((ā·b̄)·c̄)·((a·b)·c)` with `b̄ = braOf b (xb1 ++ xb2)` (`spare = true`) resp. `braOf b xb1`
+    (`spare = false`: the bond leg towards `c` flipped as well), and `normSq ((a·b)·c)` -/
+def chainVals (a b c : Arr Int) (xa xb1 xb2 xc : List Nat) (spare : Bool) : List Int :=
+  let P (x y : List Nat) : AxesArg := .pair (x.map Int.ofNat) (y.map Int.ofNat)
+  let x2 := AssocP.axesAB a.ndim b.ndim xa xb1 xb2
+  match a.tensordotF b (P xa xb1) .blockwise,
+      (NormNet.braOf a xa).tensordotF (NormNet.braOf b (if spare then xb1 ++ xb2 else xb1)) (P xa xb1)
+        .blockwise with
+  | .ok k2, .ok kb2 =>
+    (match kb2.tensordotF (NormNet.braOf c xc) (P x2 xc) .blockwise,
+        k2.tensordotF c (P x2 xc) .blockwise with
+     | .ok kb3, .ok k3 =>
+       (match kb3.tensordotF k3 (allAxes k3.ndim) .blockwise with
+        | .ok r => [r.elem [] [], normSq k3, (r.ndim : Int), (r.oddpos.length : Int)]
+        | .error _ => [])
+     | _, _ => [])
+  | _, _ => []
+
+example : chainVals C03.gA C03.gB gC [2] [0] [2] [0] true = [117734, 117734, 0, 0] := by
+  decide +kernel
+
+/-- **the flip set of the middle bra tensor has to spare its bond legs** -/
+theorem chain3_needs_sparing :
+    chainVals C03.gA C03.gB gC [2] [0] [2] [0] false = [-106582, 117734, 0, 0] := by decide +kernel
 
 end SymmModel.C10
